@@ -160,13 +160,18 @@ static std::string doQuoted(const long len, const std::string &bytes) {
 }
 
 // ccTypeByName is file-static: observe it through parse() of a single bare directive
+// (numeric directives are only recorded with a value: second attempt with "=1")
 static int typeOfName(const std::string &name) {
-    HttpHdrCc cc;
-    cc.parse(exactString(name));
-    for (const auto &t : AllTypes)
-        if (t.id != HttpHdrCcType::CC_OTHER && cc.isSet(t.id))
-            return static_cast<int>(t.id);
-    return cc.other.size() ? static_cast<int>(HttpHdrCcType::CC_OTHER) : -1;
+    for (const char *suffix : {"", "=1"}) {
+        HttpHdrCc cc;
+        cc.parse(exactString(name + suffix));
+        for (const auto &t : AllTypes)
+            if (t.id != HttpHdrCcType::CC_OTHER && cc.isSet(t.id))
+                return static_cast<int>(t.id);
+        if (cc.other.size())
+            return static_cast<int>(HttpHdrCcType::CC_OTHER);
+    }
+    return -1;
 }
 
 static void dump() {
